@@ -11,3 +11,4 @@ import AcryoVerif.Props.C17
 import AcryoVerif.Props.C15
 import AcryoVerif.Props.C12
 import AcryoVerif.Props.C13
+import AcryoVerif.Props.C01
